@@ -1,0 +1,39 @@
+//go:build verif
+
+// Contracts for deductive verification (comment-only; compiled only with -tags verif).
+package app
+
+//@ trusted-pure traceinfo.TraceInfo
+
+// ---- C09 ----
+// Ownership assumption (precondition, not proved of callers): the request and the response of one
+// context do not share their lazily allocated Trailer object or their pooled body buffer.
+//@ fresh-override RequestContext.index = -1 :: the chain index of a context that has not started is -1
+//@ fresh-override RequestContext.conn ignore :: connection-scoped; cleared by Reset, kept by ResetWithoutConn (see the explicit clause on Reset)
+//@ fresh-override RequestContext.HTMLRender ignore :: engine-scoped renderer installed at context creation
+//@ fresh-override RequestContext.hijackHandler ignore :: cleared by the serve loop after use, not by the reset method (checked on Server.Serve)
+//@ fresh-override RequestContext.traceInfo ignore :: connection-scoped trace object, reset in place when tracing is enabled
+//@ fresh-override RequestContext.enableTrace ignore :: engine-scoped configuration
+//@ fresh-override RequestContext.clientIPFunc ignore :: engine-scoped configuration
+//@ fresh-override RequestContext.formValueFunc ignore :: engine-scoped configuration
+//@ fresh-override RequestContext.binder ignore :: engine-scoped configuration
+//@ fresh-override RequestContext.validator ignore :: engine-scoped configuration
+
+//@ func RequestContext.ResetWithoutConn(ctx)
+//@   props C09
+//@   fresh-except Request.isTLS :: connection-scoped, deliberately kept across requests on one connection
+//@   replay-go ctx := NewContext(0); ctx.Exile(); ctx.ResetWithoutConn(); if ctx.IsExiled() { fmt.Println("VCGO-VIOLATED IsExiled() is still true after ResetWithoutConn") }
+//@   requires ctx.Request.Header.trailer == nil || ctx.Request.Header.trailer != ctx.Response.Header.trailer
+//@   requires ctx.Request.body == nil || ctx.Request.body != ctx.Response.body
+//@   modifies *
+//@   top-ensures isFresh(ctx)
+
+//@ func RequestContext.Reset(ctx)
+//@   props C09
+//@   fresh-except Request.isTLS :: connection-scoped, deliberately kept across requests on one connection
+//@   replay-go ctx := NewContext(0); ctx.Exile(); ctx.Reset(); if ctx.IsExiled() { fmt.Println("VCGO-VIOLATED IsExiled() is still true after Reset") }
+//@   requires ctx.Request.Header.trailer == nil || ctx.Request.Header.trailer != ctx.Response.Header.trailer
+//@   requires ctx.Request.body == nil || ctx.Request.body != ctx.Response.body
+//@   modifies *
+//@   top-ensures isFresh(ctx)
+//@   top-ensures ctx.conn == nil
